@@ -244,19 +244,26 @@ def abs_cmp(op, A, B):
 # ---------------------------------------------------------------------------
 
 class SymQ:
-    """Abstract quantity (kind, unit, value) whose methods ARE the unit-layer contracts."""
+    """Abstract quantity whose methods ARE the unit-layer contracts.
+
+    Representation: (kind, unit, SI magnitude).  The raw `.value` is derived on demand as si / fac(unit).
+    Outcome classes and result magnitudes are those of `absop` evaluated on the operands expressed in SI units
+    (justified at L1: the real operators match `absop` for all units, and `absop` is unit-independent --
+    clauses helper:op-matches-abstract-contract / helper:abstract-contract-is-unit-independent); the result unit
+    is the one `absop` gives for the operands' actual units.
+    """
     __hash__ = None
     __array_priority__ = 2000
 
-    def __init__(self, kind, value, unit):
+    def __init__(self, kind, si, unit):
         self.kind = kind
-        self._value = value
+        self._si = si
         self._unit = unit
 
     # factory = contract of the constructor
     @staticmethod
     def make(kind, value=None, unit=None):
-        if not (isinstance(value, SymNum) or (is_number(value) and not isinstance(value, bool)) or isinstance(value, bool)):
+        if not (isinstance(value, SymNum) or is_number(value)):
             raise TypeError("Parameter 'value' must be a float or an integer.")
         if not isinstance(unit, (str, SymUnit)):
             raise TypeError("Parameter 'unit' must be a string.")
@@ -265,11 +272,14 @@ class SymQ:
         ctx().events.append(("ctor", kind))
         if _truth(sign_violated(kind, value)):
             raise ValueError("sign constraint violated")
-        return SymQ(kind, value, unit)
+        return SymQ(kind, _num(L.mul(value, fac(kind, unit))), unit)
 
     @property
     def value(self):
-        return self._value
+        f = fac(self.kind, self._unit)
+        if isinstance(f, Fraction) and f == 1:
+            return self._si
+        return _num(L.div(self._si, f))
 
     @property
     def unit(self):
@@ -280,7 +290,7 @@ class SymQ:
         return _KindClass.get(self.kind)
 
     def si(self):
-        return L.mul(self._value, fac(self.kind, self._unit))
+        return L.num(self._si)
 
     def to(self, target_unit, inplace=False):
         if not isinstance(target_unit, (str, SymUnit)):
@@ -290,21 +300,26 @@ class SymQ:
         if not unit_known(self.kind, target_unit):
             raise KeyError(target_unit)
         ctx().events.append(("to", self.kind))
-        v = convert(self.kind, self._value, self._unit, target_unit)
-        v = _num(v)
         if inplace:
-            self._value, self._unit = v, target_unit
+            self._unit = target_unit
             return self
-        return SymQ(self.kind, v, target_unit)
+        return SymQ(self.kind, self._si, target_unit)
 
     def _tup(self):
-        return ("q", self.kind, self._unit, self._value)
+        """operand as absop sees it, expressed in the SI unit"""
+        return ("q", self.kind, SI_UNIT[self.kind], self._si)
+
+    def _tup_units(self):
+        return ("q", self.kind, self._unit, None)
 
     def _binop(self, op, other, reflected=False):
         o = _operand(other)
         if o is None:
             raise TypeError(f"unsupported operand for {op}: {type(other).__name__}")
+        me_u = self._unit
+        ot_u = other._unit if isinstance(other, SymQ) else (other.unit if _real_quantity(other) else None)
         A, B = (o, self._tup()) if reflected else (self._tup(), o)
+        ua, ub = (ot_u, me_u) if reflected else (me_u, ot_u)
         ctx().events.append(("op", op, A[1] if A[0] == "q" else A[2], B[1] if B[0] == "q" else B[2]))
         for cond, outcome in absop(op, A, B):
             if not _truth(cond):
@@ -317,8 +332,8 @@ class SymQ:
                 raise ValueError("result violates the sign constraint")
             if outcome[0] == "num":
                 return _num(outcome[1])
-            _, K, u, v = outcome
-            return SymQ(K, _num(v), u)
+            _, K, u_si, v = outcome
+            return SymQ(K, _num(v), result_unit(op, A, B, ua, ub, K))
         raise sym.EngineError("absop: empty decision list")
 
     def __add__(self, o):
@@ -344,15 +359,14 @@ class SymQ:
 
     def __neg__(self):
         ctx().events.append(("unary", "neg", self.kind))
-        v = _num(L.sub(0, self._value))
+        v = _num(L.sub(0, self._si))
         if _truth(sign_violated(self.kind, v)):
             raise ValueError("sign constraint violated")
         return SymQ(self.kind, v, self._unit)
 
     def __abs__(self):
         ctx().events.append(("unary", "abs", self.kind))
-        return SymQ(self.kind, _num(L.absv(L.num(self._value))) if sym.is_sym(self._value) else abs(self._value),
-                    self._unit)
+        return SymQ(self.kind, _num(L.absv(L.num(self._si))) if sym.is_sym(self._si) else abs(self._si), self._unit)
 
     def _cmp(self, op, o):
         if not isinstance(o, SymQ) and _real_quantity(o):
@@ -363,9 +377,9 @@ class SymQ:
         if o.kind != self.kind and spec.BASE_KIND[o.kind] == self.kind:
             # CPython: the right operand's rich comparison has priority when its class is a proper subclass
             swap = {"eq": "eq", "ne": "ne", "lt": "gt", "gt": "lt", "le": "ge", "ge": "le"}
-            t = abs_cmp(swap[op], o._tup(), self._tup())
+            t = abs_cmp_si(swap[op], o.si(), fac(o.kind, o._unit), self.si(), same_unit(o._unit, self._unit))
         else:
-            t = abs_cmp(op, self._tup(), o._tup())
+            t = abs_cmp_si(op, self.si(), fac(self.kind, self._unit), o.si(), same_unit(self._unit, o._unit))
         if isinstance(t, z3.ExprRef):
             return SymBool(z3.simplify(t))
         return bool(t)
@@ -400,16 +414,43 @@ class SymQ:
     def _trig(self, f, frequency):
         if self.kind not in ("Angle", "AngularPosition"):
             raise AttributeError("trig of a non-angle")
-        x = self.to("rad").value
+        x = self._si
         if frequency is not None:
             x = 2 * sym.PI * frequency * x
         return f(x if sym.is_sym(x) else sym.sym(x))
 
     def __repr__(self):
-        return f"SymQ<{self.kind}>({self._value!r} {self._unit!r})"
+        return f"SymQ<{self.kind}>(si={self._si!r} unit={self._unit!r})"
 
     def __format__(self, s):
         return repr(self)
+
+
+def result_unit(op, A, B, ua, ub, K):
+    """unit label of the result (from the library: left quantity operand's unit, or the SI unit for cross-kind results)"""
+    qa, qb = A[0] == "q", B[0] == "q"
+    if qa and qb:
+        if op in ("add", "sub"):
+            return ua
+        return CROSS_UNIT[K]
+    return ua if qa else ub
+
+
+def abs_cmp_si(op, sx, fa, sy, su):
+    """the library's comparison rule on SI magnitudes: exact when the units are the same, otherwise the absolute
+    tolerance 1e-12 measured in the LEFT operand's unit (fa = SI value of one left unit)"""
+    exact = {"eq": L.eq(sx, sy), "ne": L.ne(sx, sy), "lt": L.lt(sx, sy), "le": L.le(sx, sy), "gt": L.gt(sx, sy),
+             "ge": L.ge(sx, sy)}[op]
+    d = L.sub(sx, sy)
+    tf = L.mul(TOL, fa)
+    ntf = L.mul(-TOL, fa)
+    tol = {"eq": L.And(L.lt(d, tf), L.gt(d, ntf)), "ne": L.Or(L.gt(d, tf), L.lt(d, ntf)), "gt": L.gt(d, tf),
+           "ge": L.ge(d, ntf), "lt": L.lt(d, ntf), "le": L.le(d, tf)}[op]
+    if su is True:
+        return exact
+    if su is False:
+        return tol
+    return z3.If(su, L._b(exact), L._b(tol))
 
 
 class _KindClass:
@@ -441,7 +482,9 @@ def _real_quantity(o):
 
 def lift_real(o):
     """a real gearpy quantity (module constant such as NULL_TORQUE) as a SymQ with exact value"""
-    return SymQ(type(o).__name__, o.value if sym.is_sym(o.value) else sym.to_frac(o.value), o.unit)
+    K = type(o).__name__
+    v = o.value if sym.is_sym(o.value) else sym.to_frac(o.value)
+    return SymQ(K, _num(L.mul(v, fac(K, o.unit))), o.unit)
 
 
 def _operand(o):
